@@ -485,15 +485,29 @@ def subrange(ctx, prog):
 
 def macro_borne(ctx):
     found = {}
+    defs = {}
     for d in macrolint.scan_repo(facts.REPO, crates=("konst", "konst_kernel")):
+        defs.setdefault(d.name, []).append(d)
         u = macrolint.unsafe_tokens(d)
         if u:
             found[d.name] = (d.file, u)
+    # a macro is covered by the witness expansions when it is listed, or when a covered macro invokes it (a helper split off a
+    # listed macro is expanded together with it, so its unsafe code is in the witnesses' MIR all the same)
+    covered = set(MACRO_UNSAFE)
+    grew = True
+    while grew:
+        grew = False
+        for name in list(covered):
+            for d in defs.get(name, []):
+                for inv in macrolint.invoked_macros(d):
+                    if inv in defs and inv not in covered:
+                        covered.add(inv)
+                        grew = True
     for name, (file, lines) in found.items():
-        if name not in MACRO_UNSAFE:
+        if name not in covered:
             ctx.violation("MACRO", name, "macro %s contains `unsafe` in a transcriber but is not covered by any witness expansion" % name, "%s:%d" % (file, lines[0]))
         ctx.instance("MACRO", name, sample={"macro": name, "unsafe_tokens": len(lines)})
-    for name in MACRO_UNSAFE - set(found):
+    for name in MACRO_UNSAFE - set(defs):
         ctx.violation("MACRO", name + "|gone", "macro %s is listed as unsafe-bearing but was not found" % name)
 
 
